@@ -120,3 +120,26 @@ impl<'a, K, V, S> VacantEntry<'a, K, V, S> {
     pub open spec fn hash_ok(&self) -> bool { self.hash == spec_hash::<K, S>(self.table.hash_builder, &self.key) }
 }
 } // verus!
+verus! {
+// ---- map-level iterator wrappers (C08): how many elements each wrapper still has to yield
+impl<'a, K, V> map::Iter<'a, K, V> { pub open spec fn left(&self) -> nat { self.inner.left() } }
+impl<'a, K, V> map::IterMut<'a, K, V> { pub open spec fn left(&self) -> nat { self.inner.left() } }
+impl<'a, K, V> map::Keys<'a, K, V> { pub open spec fn left(&self) -> nat { self.inner.inner.left() } }
+impl<'a, K, V> map::Values<'a, K, V> { pub open spec fn left(&self) -> nat { self.inner.inner.left() } }
+impl<'a, K, V> map::ValuesMut<'a, K, V> { pub open spec fn left(&self) -> nat { self.inner.inner.left() } }
+impl<K, V> map::IntoIter<K, V> { pub open spec fn left(&self) -> nat { self.inner.rest().len() } }
+impl<'a, K, V> map::Drain<'a, K, V> { pub open spec fn left(&self) -> nat { self.inner.rest().len() } }
+impl<T> RawIter<T> {
+    /// the iterator covers exactly the occupied buckets of both tables of `t`
+    pub open spec fn covers(&self, t: RawTable<T>) -> bool {
+        &&& self.table@.table == t.table@.id && self.table@.remaining == t.table@.items.dom()
+        &&& match t.leftovers { Some(lo) => self.leftovers.is_some() && self.leftovers->0@.table == lo.table@.id && self.leftovers->0@.remaining == lo.table@.items.dom(),
+                                None => self.leftovers.is_none() }
+    }
+}
+} // verus!
+verus! {
+impl<'a, K> set::Iter<'a, K> { pub open spec fn left(&self) -> nat { self.iter.left() } }
+impl<K> set::IntoIter<K> { pub open spec fn left(&self) -> nat { self.iter.left() } }
+impl<'a, K> set::Drain<'a, K> { pub open spec fn left(&self) -> nat { self.iter.left() } }
+} // verus!
